@@ -82,10 +82,20 @@ Diff(cfg, e, r) ==
 (* environment variable, or by SetCalled) is reported as called, under the  *)
 (* same name when it is on the command line; and a required option that is  *)
 (* satisfied in a fresh Parse is not reported missing.                      *)
-DiffAfter(cfg, e, r) ==
+(* When the earlier arguments held no option at all (whatever was declared   *)
+(* at that moment, nothing can have been marked as called by them), a       *)
+(* required option that a fresh Parse / Dispatch reports missing is reported *)
+(* missing now as well: what the earlier calls looked at or cached must not  *)
+(* hide an option declared since.                                           *)
+DiffAfter(cfg, e, r, pre) ==
   IF r.panic # "" THEN {"panic"}
   ELSE IF r.hang THEN {"hang"}
   ELSE
+    LET plain == \A k \in 1..Len(pre) : ~(Len(pre[k]) >= 1 /\ pre[k][1] = DASH) IN
+    (IF plain /\ e.err.kind = "required" /\ ~ReqEq(cfg, e.err.names, r.err) THEN {"err"} ELSE {})
+    \cup (IF plain /\ e.err.kind = "" /\ r.err.kind = "" /\ e.derr = "required"
+              /\ ~(r.derr = "required" /\ ReqEq(cfg, e.dnames, r.dreq)) THEN {"derr"} ELSE {})
+    \cup
     (IF \A o \in 1..NOpts(cfg) : e.called[o] => r.called[o] THEN {} ELSE {"called"})
     \cup (IF \A o \in 1..NOpts(cfg) :
                e.called[o] => \/ r.as[o] = e.as[o]
@@ -109,7 +119,7 @@ CheckParse(dl, c) ==
       fin == ra.fin
       e   == Outcome(cfg, fin)
       after == "haspre" \in DOMAIN c
-      df  == IF e.miss THEN {} ELSE IF after THEN DiffAfter(cfg, e, c.res) ELSE Diff(cfg, e, c.res)
+      df  == IF e.miss THEN {} ELSE IF after THEN DiffAfter(cfg, e, c.res, IF "pre" \in DOMAIN c THEN c.pre ELSE <<>>) ELSE Diff(cfg, e, c.res)
       \* blocks enumerated from a family are the very cases GetoptMC explored; random blocks are new inputs
       bad == IF Trace[dl].sp /\ ~after THEN SpecViolations(cfg, orc, c.argv, fin) ELSE {}
   IN /\ TLCSet(2, TLCGet(2) \cup ra.acts)   \* actions of the specification these executions exercised (-workers 1)
